@@ -3855,6 +3855,19 @@ func (w *Wallet) reliablyPublishTransaction(tx *wire.MsgTx,
 	// on-chain. This is done outside of the database transaction to prevent
 	// backend interaction within it.
 	if err := chainClient.NotifyReceived(ourAddrs); err != nil {
+		// The hand-over failed before the transaction reached the
+		// backend: remove it (and anything spending it) from the
+		// unconfirmed store again, exactly as for a rejected broadcast,
+		// so that its inputs are not left marked as spent.
+		dbErr := walletdb.Update(w.db, func(dbTx walletdb.ReadWriteTx) error {
+			txmgrNs := dbTx.ReadWriteBucket(wtxmgrNamespaceKey)
+			return w.TxStore.RemoveUnminedTx(txmgrNs, txRec)
+		})
+		if dbErr != nil {
+			log.Warnf("Unable to remove transaction %v after failed "+
+				"notification registration: %v", tx.TxHash(), dbErr)
+		}
+
 		return nil, err
 	}
 
